@@ -18,7 +18,7 @@ ASSUMPTIONS = ["netCDF4 is replaced by harness/ncstub (API contract)", "files ar
                "list indices have no repeats in assignments"]
 
 FLOORS = {"fam=read": (400, 400), "fam=assign": (500, 500), "fam=append": (20, 20), "fam=multi": (30, 30), "mode=position": (300, 300),
-          "expect=IndexError": (50, 50), "tol": (30, 30), "two-assignments": (5, 5), "0d": (2, 2), "str-labels": (100, 100)}
+          "expect=IndexError": (50, 50), "tol": (30, 30), "assign-tol": (30, 30), "two-assignments": (5, 5), "0d": (2, 2), "str-labels": (100, 100)}
 
 PROFILES = ("always_mask", "mask_if_missing")
 
@@ -36,6 +36,8 @@ def classify(scn):
             out.append("expect=" + scn["out"]["err"])
         if i["tol"]:
             out.append("tol")
+            if i["fam"] == "assign":
+                out.append("assign-tol")
         if i["two"]:
             out.append("two-assignments")
         if not i["cfg"]["dims"]:
@@ -166,7 +168,11 @@ def _replay_assign(scn, fn, codec, profile):
     viol, calls = [], 0
     kinds = arr["kinds"]
     dt = "i" if arr["dtype"] == "j" else arr["dtype"]
-    for sp in (["setitem", "put"] if i["mode"] == "label" else ["ix", "put"]):
+    tol = codec.tol(i["tol"][0], kinds[0]) if i["tol"] else None
+    sps = ["setitem", "put"] if i["mode"] == "label" else ["ix", "put"]
+    if tol is not None:
+        sps = ["put"] + (["nloc"] if tol == np.inf else [])
+    for sp in sps:
         _write_file(fn, name, arr, codec)
         calls += 1
         err = None
@@ -180,8 +186,13 @@ def _replay_assign(scn, fn, codec, profile):
                     tup = index_tuple(idxs, kinds, codec, mode, 0)
                     t1 = tup if len(tup) != 1 else tup[0]
                     val = _conc_rhs(rhs, dt)
-                    if sp == "put" or (mode == "position" and sp != "ix"):
-                        v.write(tup, val, indexing=mode)
+                    if sp == "nloc":
+                        v.nloc[t1] = val
+                    elif sp == "put" or (mode == "position" and sp != "ix"):
+                        if tol is not None and mode == "label":
+                            v.write(tup, val, indexing=mode, tol=tol)
+                        else:
+                            v.write(tup, val, indexing=mode)
                     elif mode == "label":
                         v[t1] = val
                     else:
